@@ -74,7 +74,10 @@ RandomStep(e) ==
                     <<"C19.drawn_under_lock", qCount.drawn + 1 <= qCount.exits>> >>)
     [] e.op = "r.ret" ->
          LET m == MatchIdx(e.id) IN
-         /\ qPending' = IF m = {} THEN qPending ELSE Remove(qPending, CHOOSE i \in m : TRUE)
+         \* when no pending pair explains the id, the oldest pair is dropped (re-synchronisation:
+         \* the call that produced this id has returned, so one pair is no longer pending)
+         /\ qPending' = IF m = {} THEN (IF qPending = <<>> THEN qPending ELSE Tail(qPending))
+                         ELSE Remove(qPending, CHOOSE i \in m : TRUE)
          /\ UNCHANGED <<qHeld, qStart, qCount>>
          /\ Note(<< <<"C19.compose", m # {}>>,
                     <<"C19.version", IsID(e.id) /\ Version(e.id) = 4>>,
